@@ -451,3 +451,173 @@ theorem hybridSets_local (lum : Array Nat) (w h : Nat)
   simp only [this, and_self, if_true, hbps, hs]
 
 end Gzx.Binarizer
+
+namespace Gzx.Binarizer
+open Gzx
+
+/-! ## estimateBlackPoint: a successful result lies strictly between two bucket indices -/
+
+theorem argmaxStrict_mem (best : Nat × Int) (cands : List (Nat × Int)) :
+    argmaxStrict best cands = best ∨ argmaxStrict best cands ∈ cands := by
+  induction cands generalizing best with
+  | nil => left; rfl
+  | cons c cs ih =>
+    obtain ⟨x, s⟩ := c
+    unfold argmaxStrict
+    split
+    · rcases ih (x, s) with h | h
+      · right; rw [h]; simp
+      · right; simp [h]
+    · rcases ih best with h | h
+      · left; exact h
+      · right; simp [h]
+
+theorem indexed_fst_lt (bs : List Nat) (x c : Nat) (h : (x, c) ∈ indexed bs) : x < bs.length := by
+  unfold indexed at h
+  have := (List.of_mem_zip h).1
+  exact List.mem_range.mp this
+
+theorem estimateBlackPoint_bounds (buckets : List Nat) (bp : Nat) (hlen : 16 ≤ buckets.length)
+    (h : estimateBlackPoint buckets = .ok bp) :
+    8 ≤ bp ∧ bp + 16 ≤ 8 * buckets.length := by
+  unfold estimateBlackPoint at h
+  simp only at h
+  generalize hfirst : argmaxStrict (0, 0) ((indexed buckets).map (fun (x, c) => (x, (c : Int)))) = first at h
+  generalize hsecond : argmaxStrict (0, 0)
+    ((indexed buckets).map (fun (x, c) => (x, ((c * sqDist x first.1 : Nat) : Int)))) = second at h
+  split at h
+  · cases h
+  · rename_i hcontrast
+    generalize hbest : argmaxStrict _ _ = best at h
+    cases h
+    -- both peaks are bucket indices (or the initial 0)
+    have hf : first.1 < buckets.length ∨ first.1 = 0 := by
+      rcases argmaxStrict_mem (0, 0) ((indexed buckets).map (fun (x, c) => (x, (c : Int)))) with e | e
+      · right; rw [hfirst] at e; rw [e]
+      · left; rw [hfirst] at e
+        obtain ⟨⟨x, c⟩, hm, he⟩ := List.mem_map.mp e
+        have := indexed_fst_lt buckets x c hm
+        rw [← he]; exact this
+    have hs : second.1 < buckets.length ∨ second.1 = 0 := by
+      rcases argmaxStrict_mem (0, 0)
+        ((indexed buckets).map (fun (x, c) => (x, ((c * sqDist x first.1 : Nat) : Int)))) with e | e
+      · right; rw [hsecond] at e; rw [e]
+      · left; rw [hsecond] at e
+        obtain ⟨⟨x, c⟩, hm, he⟩ := List.mem_map.mp e
+        have := indexed_fst_lt buckets x c hm
+        rw [← he]; exact this
+    -- the valley lies strictly between them
+    have hb : min first.1 second.1 < best.1 ∧ best.1 < max first.1 second.1 := by
+      rcases argmaxStrict_mem _ _ |>.symm with e | e
+      · rw [hbest] at e
+        obtain ⟨⟨x, c⟩, hm, he⟩ := List.mem_map.mp e
+        have hm' := List.mem_reverse.mp hm
+        have := (List.mem_filter.mp hm').2
+        simp only [decide_eq_true_eq] at this
+        rw [← he]; exact this
+      · rw [hbest] at e; rw [e]; simp only; omega
+    omega
+
+/-! ## the global method -/
+
+theorem sampleRow_ok (lum : Array Nat) (w h row : Nat) (hsz : lum.size = w * h) (hrow : row < h) :
+    ∃ ps, sampleRow lum w row = .ok ps := by
+  unfold sampleRow
+  apply mapME_exists
+  intro x hx
+  have hx' : x < w * 4 / 5 := List.mem_range.mp (List.mem_of_mem_drop hx)
+  have hlt : row * w + x < lum.size := by
+    rw [hsz]; exact idx_lt w h x row (by omega) hrow
+  obtain ⟨p, hp, _⟩ := rd_ok lum _ hlt
+  exact ⟨p, hp⟩
+
+theorem samples_ok (lum : Array Nat) (w h : Nat) (hsz : lum.size = w * h) (hh : 1 ≤ h) :
+    ∃ ps, samples lum w h = .ok ps := by
+  have : ∃ rows, mapME (sampleRowAt lum w h) [1, 2, 3, 4] = .ok rows := by
+    apply mapME_exists
+    intro y hy
+    have hy' : y ≤ 4 := by
+      simp only [List.mem_cons, List.mem_nil_iff, or_false] at hy; omega
+    exact sampleRow_ok lum w h (h * y / 5) hsz (by
+      have : h * y ≤ h * 4 := Nat.mul_le_mul_left h hy'
+      omega)
+  obtain ⟨rows, hrows⟩ := this
+  exact ⟨rows.flatten, by simp only [samples, hrows]⟩
+
+/-- `GlobalHistogramBinarizer.GetBlackMatrix` never panics; it answers NotFound or sets exactly the pixels
+    below a black point that lies in `[8, 240]` -/
+theorem globalSets_spec (lum : Array Nat) (w h : Nat) (hsz : lum.size = w * h) (hw : 1 ≤ w) (hh : 1 ≤ h) :
+    globalSets lum w h = .error .notFound ∨
+    ∃ sets bp, globalSets lum w h = .ok sets ∧ 8 ≤ bp ∧ bp ≤ 240 ∧
+      ∀ X Y, (X, Y) ∈ sets ↔ (X < w ∧ Y < h ∧ ∃ p, lum[Y * w + X]? = some p ∧ p % 256 < bp) := by
+  obtain ⟨ps, hps⟩ := samples_ok lum w h hsz hh
+  unfold globalSets
+  have hn : ¬ (w < 1 ∨ h < 1) := by omega
+  simp only [hn, if_false, hps]
+  cases hbp : estimateBlackPoint (histogram ps) with
+  | error e =>
+    left
+    -- the only error of estimateBlackPoint is NotFound
+    unfold estimateBlackPoint at hbp
+    simp only at hbp
+    split at hbp
+    · cases hbp; rfl
+    · cases hbp
+  | ok bp =>
+    right
+    have hl : (histogram ps).length = 32 := by simp [histogram, LUMINANCE_BUCKETS]
+    obtain ⟨b1, b2⟩ := estimateBlackPoint_bounds _ bp (by omega) hbp
+    rw [hl] at b2
+    obtain ⟨sets, hsets, hmem⟩ := scanRect_spec lum w h 0 0 w h (fun p => decide (p < bp)) hsz
+      (by omega) (by omega)
+    refine ⟨sets, bp, hsets, b1, by omega, ?_⟩
+    intro X Y
+    rw [hmem X Y]
+    simp
+
+end Gzx.Binarizer
+
+namespace Gzx.Binarizer
+open Gzx
+
+/-! ## black rows -/
+
+theorem sharpen_length (bp : Nat) : ∀ row : List Nat, (sharpen bp row).length = row.length - 2
+  | [] => by simp [sharpen]
+  | [_] => by simp [sharpen]
+  | [_, _] => by simp [sharpen]
+  | l :: c :: r :: rest => by
+    have := sharpen_length bp (c :: r :: rest)
+    simp only [sharpen, List.length_cons] at this ⊢
+    omega
+
+theorem sharpen_get (bp : Nat) : ∀ (row : List Nat) (i : Nat) (h : i + 2 < row.length),
+    (sharpen bp row)[i]? =
+      some (decide (Int.tdiv ((row[i + 1] : Int) * 4 - (row[i] : Int) - (row[i + 2] : Int)) 2 < bp))
+  | [], i, h => by simp at h
+  | [_], i, h => by simp at h
+  | [_, _], i, h => by simp only [List.length_cons, List.length_nil] at h; omega
+  | l :: c :: r :: rest, 0, h => by simp [sharpen]
+  | l :: c :: r :: rest, i + 1, h => by
+    have := sharpen_get bp (c :: r :: rest) i (by simp only [List.length_cons] at h ⊢; omega)
+    simp only [sharpen, List.getElem?_cons_succ, List.getElem_cons_succ]
+    exact this
+
+theorem sharpen_bilevel_decision (bp : Nat) (h1 : 8 ≤ bp) (h2 : bp ≤ 240) (a b c : Nat)
+    (ha : a = 0 ∨ a = 255) (hb : b = 0 ∨ b = 255) (hc : c = 0 ∨ c = 255) :
+    decide (Int.tdiv ((c : Int) * 4 - a - b) 2 < bp) = decide (c = 0) := by
+  rcases ha with rfl | rfl <;> rcases hb with rfl | rfl <;> rcases hc with rfl | rfl <;> simp <;> omega
+
+theorem blackRow_error (row : List Nat) (e : Fault) (h : blackRow row = .error e) : e = .notFound := by
+  unfold blackRow at h
+  split at h
+  · rename_i e' he
+    cases h
+    unfold estimateBlackPoint at he
+    simp only at he
+    split at he
+    · cases he; rfl
+    · cases he
+  · split at h <;> cases h
+
+end Gzx.Binarizer
